@@ -1,27 +1,33 @@
 #!/bin/sh
 # usage: tools/confirm_seeded.sh <prop> <mK>
 # Confirms an independently produced breaking change in its scratch worktree /tmp/wt_<prop>:
-#   demo passes on clean source, fails with the patch, repo tests unchanged (12 failed / 2103 passed, no-Cython only).
+#   demo passes on clean source, fails with the patch, and the repo's own tests (run against the worktree source)
+#   fail exactly the same test ids with and without the patch.
 # On success stores it as /verif/seeded/<prop>_<mK>/.
 PROP=$1; M=$2; WT=/tmp/wt_$PROP; SRC=/tmp/mut_$PROP/$M
 [ -d "$WT" ] || { echo "no worktree $WT"; exit 3; }
 cd "$WT" && git checkout -q -- . && git clean -fdq
-run_demo() { PYTHONPATH=$WT/src:/tmp/mutshim timeout 600 /venv/bin/python "$SRC/demo.py" >/tmp/demo_$PROP_$M.out 2>&1; echo $?; }
+run_demo() { PYTHONPATH=$WT/src:/tmp/mutshim timeout 900 /venv/bin/python "$SRC/demo.py" >/tmp/demo_${PROP}_$M.out 2>&1; echo $?; }
+run_tests() { PYTHONPATH=$WT/src:/tmp/mutshim /venv/bin/python -m pytest tests -q -p no:cacheprovider --timeout=900 -n 6 2>&1 | grep -E "^FAILED|^ERROR" | sed 's/ - .*//' | sort; }
+if [ ! -f /tmp/wt_$PROP.clean_failures ]; then run_tests > /tmp/wt_$PROP.clean_failures; git clean -fdq; fi
 CLEAN=$(run_demo)
-git apply "$SRC/patch.diff" || { echo "patch does not apply"; exit 4; }
+git apply "$SRC/patch.diff" || { echo "$PROP $M: patch does not apply"; exit 4; }
 MUT=$(run_demo)
-TESTS=$(PYTHONPATH=$WT/src:/tmp/mutshim /venv/bin/python -m pytest tests -q -p no:cacheprovider --timeout=900 -n 6 2>&1 | tail -1)
+run_tests > /tmp/wt_$PROP.$M.failures
 git checkout -q -- . && git clean -fdq
-echo "$PROP $M: demo clean=$CLEAN mutated=$MUT tests: $TESTS"
-case "$TESTS" in *"12 failed, 2103 passed"*) T_OK=1;; *) T_OK=0;; esac
+if cmp -s /tmp/wt_$PROP.clean_failures /tmp/wt_$PROP.$M.failures; then T_OK=1; else T_OK=0; fi
+NF=$(wc -l < /tmp/wt_$PROP.clean_failures)
+echo "$PROP $M: demo clean=$CLEAN mutated=$MUT; failing test ids identical to clean worktree: $T_OK ($NF ids)"
 if [ "$CLEAN" = 0 ] && [ "$MUT" = 1 ] && [ "$T_OK" = 1 ]; then
   D=/verif/seeded/${PROP}_$M; mkdir -p $D; cp "$SRC/patch.diff" "$SRC/demo.py" $D/
-  /venv/bin/python - "$SRC/meta.json" "$D/meta.json" "$CLEAN" "$MUT" "$TESTS" <<'PY'
+  /venv/bin/python - "$SRC/meta.json" "$D/meta.json" "$CLEAN" "$MUT" "$NF" "$(git rev-parse --short HEAD)" <<'PY'
 import json, sys
-src, dst, clean, mut, tests = sys.argv[1:6]
+src, dst, clean, mut, nf, head = sys.argv[1:7]
 try: meta = json.load(open(src))
 except Exception: meta = {}
-meta['confirmed_by_verifier'] = {'demo_exit_clean': int(clean), 'demo_exit_mutated': int(mut), 'repo_tests_with_patch': tests.strip(),
+meta['confirmed_by_verifier'] = {'demo_exit_clean': int(clean), 'demo_exit_mutated': int(mut),
+  'repo_tests': f'identical set of {nf} failing test ids with and without the patch (no-Cython failures and regression snapshots that predate fix: commits)',
+  'worktree_head': head,
   'how': 'tools/confirm_seeded.sh: scratch worktree of /repo under /tmp, PYTHONPATH=<worktree>/src, demo.py before/after git apply, pytest tests -n 6'}
 json.dump(meta, open(dst, 'w'), indent=1)
 PY
